@@ -385,7 +385,65 @@ func allNodes(root any) []nodeInfo {
 	return out
 }
 
+// refLineCol: 1-based line and column of byte offset pos; columns count runes, tabs advance
+// to the next multiple of 8 plus one (the convention of the error messages).
+func refLineCol(src string, pos int) (int, int) {
+	line, col := 1, 1
+	for _, c := range src[:pos] {
+		switch c {
+		case '\n':
+			line++
+			col = 1
+		case '\t':
+			col += 8 - (col-1)%8
+		default:
+			col++
+		}
+	}
+	return line, col
+}
+
+// checkErrPositions: every line:column prefix of an error designates a token boundary of the
+// source or its end.
+func checkErrPositions(src string, toks []parser.Token, err error) string {
+	allowed := map[string]bool{}
+	add := func(pos int) {
+		if pos >= 0 && pos <= len(src) {
+			l, c := refLineCol(src, pos)
+			allowed[fmt.Sprintf("%d:%d", l, c)] = true
+		}
+	}
+	add(len(src))
+	for _, t := range toks {
+		add(t.Span.Start)
+		add(t.Span.End)
+	}
+	for _, p := range strings.Split(errPositions(err), ",") {
+		if p == "-" {
+			continue
+		}
+		if !allowed[p] {
+			return fmt.Sprintf("FAIL error position %s is not the line:column of any token boundary of the source", p)
+		}
+	}
+	return ""
+}
+
 func oracleC10(src string) string {
+	if m := oracleC10Tree(src); m != "ok" {
+		return m
+	}
+	if _, perr := parser.Parse(src); perr == nil {
+		if _, cerr := pqlCompile(nil, src); cerr != nil {
+			if m := checkErrPositions(src, parser.Scan(src), cerr); m != "" {
+				return strings.Replace(m, "FAIL error", "FAIL compile error", 1)
+			}
+		}
+	}
+	return "ok"
+}
+
+func oracleC10Tree(src string) string {
 	stmts, err := parser.Parse(src)
 	toks := parser.Scan(src)
 	starts, ends := map[int]bool{}, map[int]bool{}
@@ -421,16 +479,8 @@ func oracleC10(src string) string {
 				}
 			}
 		}
-		lines := strings.Count(src, "\n") + 1
-		for _, p := range strings.Split(errPositions(err), ",") {
-			if p == "-" {
-				continue
-			}
-			var l, c int
-			fmt.Sscanf(p, "%d:%d", &l, &c)
-			if l < 1 || l > lines || c < 1 {
-				return fmt.Sprintf("FAIL error position %s does not point into the source (%d lines)", p, lines)
-			}
+		if m := checkErrPositions(src, toks, err); m != "" {
+			return m
 		}
 		return "ok"
 	}
